@@ -392,6 +392,9 @@ nni_msgq_resize(nni_msgq *mq, int cap)
 
 out:
 	// Wake everyone up -- we changed everything.
+	nni_msgq_run_putq(mq);
+	nni_msgq_run_getq(mq);
+	nni_msgq_run_notify(mq);
 	nni_mtx_unlock(&mq->mq_lock);
 	return (0);
 }
